@@ -10,7 +10,7 @@ ASSUME = [
     "discovery events are applied as discovery.rs applies them (update DiscoveryDB, then the notification handler of DPEventLoop); the glue of discovery.rs itself is exercised by the system driver (C07)",
     "state space bounded by the constants in spec/MC_Discovery_*.cfg (participants, endpoints, lease values, clock steps, events per behaviour)",
     "virtual clock: no event falls on the exact lease boundary (model: leases 1100 / 2500 ms, steps of 400 / 1000 ms; random runs: leases end in 50 ms, steps are multiples of 100 ms), because real time keeps running under the virtual offset",
-    "remote endpoints keep the QoS they were announced with; endpoints are announced only by participants that are present",
+    "remote endpoints keep the QoS they were announced with; an endpoint may be announced before its participant was heard (SPDP lost)",
 ]
 
 
